@@ -175,6 +175,17 @@ bool Relay::filter_answer(Dgram &d)
 	}
 	if (maxans > 0 && (int)d.data.size() > maxans) {
 		S->count("relay.too_big");
+		if (big == "trim") {
+			// a relay that fits the answer into its limit by leaving out trailing records and setting TC
+			DnsMsg m;
+			if (dns_parse_strict(d.data, m).empty()) {
+				m.ar.clear(); m.ns.clear(); m.tc = true;
+				Bytes nb = dns_rebuild(m);
+				while (!m.an.empty() && (int)nb.size() > maxans) { m.an.pop_back(); nb = dns_rebuild(m); }
+				if ((int)nb.size() <= maxans) { d.data = nb; S->count("relay.trimmed"); return true; }
+			}
+			return false;
+		}
 		if (big == "servfail" || big == "tc") {
 			// turn the answer into an empty error / truncated reply in place
 			DnsMsg m;
@@ -232,8 +243,8 @@ J gen_relay(Rng &r, const std::string &force_up)
 		if (r.chance(0.5)) {
 			static const int sizes[] = {512, 1232, 4096, 768, 1500};
 			c.set("maxans", sizes[r.range(0, 4)]);
-			static const char *bg[] = {"drop", "servfail", "tc"};
-			c.set("big", bg[r.range(0, 2)]);
+			static const char *bg[] = {"drop", "servfail", "tc", "trim"};
+			c.set("big", bg[r.range(0, 3)]);
 		}
 		if (r.chance(0.3)) { c.set("edns", r.chance(0.5) ? "strip" : "drop"); if (!c.has("maxans")) { c.set("maxans", 512); c.set("big", "drop"); } }
 		if (r.chance(0.2)) c.set("shuffle", true);
